@@ -71,7 +71,7 @@ def c01(case, trace):
             if before and new and min(x for x, _ in new) <= max(x for x, _ in before):
                 yield ("ids_fresh", {"call": "add"}, "new tlid not above existing ones", i)
             if ret[0] == 4 or t["exc"] == "TracklistFull":
-                want_tracks = op[1][: len(new)]
+                want_tracks = [x for it in op[1] for x in (it if isinstance(it, list) else [it])][: len(new)]
                 pos = op[2]
                 p = len(before) if pos is None else _clamp(len(before), pos)
                 expect = before[:p] + new + before[p:]
